@@ -18,7 +18,7 @@ import random
 import warnings
 from decimal import Decimal
 
-from .core import Suite, cN, cZ, cbool, clist, copt, cstr, ctuple, import_rdflib
+from .core import Suite, cN, cZ, cbool, clist, cnat, copt, cstr, ctuple, import_rdflib
 
 rdflib = import_rdflib()
 warnings.filterwarnings("ignore")
@@ -86,6 +86,9 @@ CLUSTERS = {
                  "2006-01-01T09:00:00+01:00", "2006-01-01T08:00:00", "2006-01-01T08:00:00+00:00",
                  "2005-12-31T23:30:00-02:00", "2006-01-01T00:30:00", "2006-01-02T00:00:00Z"],
     "date": ["2006-01-01", "2006-01-01Z", "2006-01-02", "2006-01-01+05:00", "2006-01-01-05:00", "2005-12-31", "2006-01-02Z"],
+    "duration": ["P1D", "PT24H", "P1Y", "P12M", "P1M", "P30D", "-P1D", "P0D", "PT36H", "P1Y1D", "P13M"],
+    "yearMonthDuration": ["P1Y", "P12M", "P1M", "P0M", "P13M"],
+    "dayTimeDuration": ["P1D", "PT24H", "PT1H", "PT60M", "P0D"],
 }
 
 NONLIT_STRINGS = ["", "a", "b", "b1", "http://e/a", "http://e/b", "http://e/aé", "http://e/\U0001f600", "A",
@@ -108,7 +111,7 @@ def empty_lang_literal(lex):
     return lit
 
 
-def build_pool(rng, size=250):
+def build_pool(rng, size=270):
     """a fresh pool of terms (list, structurally distinct)"""
     out = []
     seen = set()
@@ -123,7 +126,7 @@ def build_pool(rng, size=250):
     for t in [Literal(""), Literal(0), Literal(False), Literal(0.0), URIRef(""), BNode(""), Variable("?q"),
               URIRef("a"), BNode("a"), Variable("a"), Literal("a"), Literal("a", datatype=XSD.string),
               Literal("a", lang="en"), Literal("a", lang="EN"), Literal("a", lang="en-US"), Literal("a", lang="en-us"),
-              Literal("a", lang="fr"), Literal("b", lang="en"), Literal("b", lang="En"),
+              Literal("a", lang="fr"), Literal("a", lang="FR"), Literal("b", lang="Fr"), Literal("b", lang="en"), Literal("b", lang="En"),
               Literal(1), Literal(1.0), Literal(Decimal("1.0")), Literal("1"), Literal("01", datatype=XSD.integer, normalize=False),
               Literal(float("nan")), Literal(float("inf")), Literal(-float("inf")), Literal(Decimal("NaN")),
               Literal(Decimal("Infinity")),
@@ -156,7 +159,7 @@ def build_pool(rng, size=250):
         if r < 0.6:
             add(Literal(s))
         elif r < 0.75:
-            add(Literal(s, lang=rng.choice(["en", "EN", "fr", "en-GB", "en-gb"])))
+            add(Literal(s, lang=rng.choice(["en", "EN", "fr", "FR", "en-GB", "en-gb"])))
         elif r < 0.85:
             add(Literal(s, datatype=XSD.string))
         elif r < 0.92:
@@ -285,8 +288,6 @@ class Laws(Suite):
     imports = "From RV Require Import Term.Model."
     case_ty = "case"
     obs_ty = "obs"
-    kf = "kf"
-    kf_ids = {3: "F7l", 8: "F7i", 9: "F7j", 10: "F7k"}
     corr = "Identifier.__eq__/__hash__/__lt__/__gt__, Literal.__eq__/__hash__/__lt__/__gt__/eq, _ORDERING"
     quick_n = 700
     thorough_n = 12000
@@ -300,13 +301,13 @@ class Laws(Suite):
         return {"terms": terms}
 
     def oracles(self, case):
-        """(hash table, ill-typed flags) for a case: derived from the tree under test when the Coq text is written, never stored"""
+        """hash table for a case: derived from the tree under test when the Coq text is written, never stored"""
         strings = []
         for j in case["terms"]:
             for s in term_strings(j):
                 if s not in strings:
                     strings.append(s)
-        return [[s, hash(s)] for s in strings], [ill_typed(j) for j in case["terms"]]
+        return [[s, hash(s)] for s in strings]
 
     def gen(self, rng, i):
         pool = self.pools.get(rng)
@@ -317,7 +318,8 @@ class Laws(Suite):
                 if p[0] == "L":
                     fams.setdefault(p[2], []).append(p)
             big = [d for d, l in fams.items() if len(l) >= 3]
-            dtm = [d for d in big if d in (XSDP + "time", XSDP + "dateTime", XSDP + "date")]
+            dtm = [d for d in big if d in (XSDP + "time", XSDP + "dateTime", XSDP + "date", XSDP + "duration",
+                                           XSDP + "yearMonthDuration", XSDP + "dayTimeDuration")]
             d = rng.choice(dtm) if dtm and rng.random() < 0.5 else rng.choice(big)
             terms = rng.sample(fams[d], min(len(fams[d]), rng.choice([3, 3, 4, 5])))
             if rng.random() < 0.3:
@@ -339,7 +341,7 @@ class Laws(Suite):
         js = case["terms"]
         ts = [mk(j) for j in js]
         n = len(ts)
-        E, L, H, NE = [], [], [], []
+        E, L, H, NE, GT, LE, GE = [], [], [], [], [], [], []
         w_sort, w_fam, w_set, w_ops = [], [], [], []
         for a in ts:
             row, lrow, nrow = [], [], []
@@ -364,8 +366,22 @@ class Laws(Suite):
             E.append(row)
             L.append(lrow)
             NE.append(nrow)
+            for M, op in ((GT, lambda x, y: x > y), (LE, lambda x, y: x <= y), (GE, lambda x, y: x >= y)):
+                orow = []
+                for b in ts:
+                    try:
+                        r = op(a, b)
+                        orow.append("lt" if r is True else "nlt" if r is False else "raise")   # lt/nlt: answered True/False
+                    except Exception:  # noqa: BLE001
+                        orow.append("raise")
+                M.append(orow)
             H.append(hash(a))
-        # ---- conformance flag (not modelled): sorted(), set/dict collapse, the other operators
+        # ---- sorted() of the list in its given order, using only the terms' own <  (modelled: coq isort)
+        try:
+            srt = sorted(range(n), key=lambda i: _K(ts[i]))
+        except Exception:  # noqa: BLE001
+            srt = None
+        # ---- conformance flags (not modelled): sorted() under shuffling, set/dict collapse, the other operators
         nonlit = [i for i in range(n) if js[i][0] != "L"]
         expect = sorted(nonlit, key=lambda i: (RANK[js[i][0]], [ord(c) for c in js[i][1]]))
         rs = random.Random(repr(js))
@@ -405,6 +421,17 @@ class Laws(Suite):
                 elif any(L[x][y] == "lt" or L[y][x] == "lt" for x, y in zip(first, res) if x != y):
                     w_fam.append("sorted: literals of one datatype come out in different orders for different input orders")
                     break
+        # inside one datatype a tie under < is value equality (Literal.eq), NaN apart
+        w_tie = []
+        for d, members in fams.items():
+            for x in members:
+                for y in members:
+                    if x < y and L[x][y] == "nlt" and L[y][x] == "nlt" and not (_nan(ts[x]) or _nan(ts[y])):
+                        try:
+                            if ts[x].eq(ts[y]) is not True:
+                                w_tie.append("two literals of one datatype tie under < but are not eq()")
+                        except Exception as e:  # noqa: BLE001
+                            w_tie.append("eq raised %s on two literals that tie under <" % type(e).__name__)
         classes = {structural_key(j) for j in js}
         try:
             if len(set(ts)) != len(classes) or len({t: 1 for t in ts}) != len(classes):
@@ -421,19 +448,19 @@ class Laws(Suite):
                         w_ops.append("< > <= >= disagree")
                 except Exception as e:  # noqa: BLE001
                     w_ops.append("operator raised " + type(e).__name__)
-        return {"eq": E, "hash": H, "lt": L, "ne": NE, "flags": [not w_sort, not w_fam, not w_set, not w_ops],
-                "why": sorted(set(w_sort + w_fam + w_set + w_ops))}
+        return {"eq": E, "hash": H, "lt": L, "ne": NE, "gt": GT, "le": LE, "ge": GE, "sorted": srt, "flags": [not w_sort, not w_fam, not w_set, not w_ops, not w_tie],
+                "why": sorted(set(w_sort + w_fam + w_set + w_ops + w_tie))}
 
     def on_timeout(self, case):
         n = len(case["terms"])
-        return {"eq": [[False] * n] * n, "hash": [0] * n, "lt": [["raise"] * n] * n, "ne": [[False] * n] * n,
-                "flags": [False] * 4, "why": ["timeout"]}
+        return {"eq": [[False] * n] * n, "hash": [0] * n, "lt": [["raise"] * n] * n, "ne": [[False] * n] * n, "sorted": None,
+                "gt": [["raise"] * n] * n, "le": [["raise"] * n] * n, "ge": [["raise"] * n] * n,
+                "flags": [False] * 5, "why": ["timeout"]}
 
     def coq_case(self, case):
-        hashes, ill = self.oracles(case)
+        hashes = self.oracles(case)
         return ("{| c_terms := " + clist(cterm(j) for j in case["terms"]) + "; c_hash := "
-                + clist(ctuple(cstr(s), cZ(h)) for s, h in hashes)
-                + "; c_ill := " + clist(cbool(b) for b in ill) + " |}")
+                + clist(ctuple(cstr(s), cZ(h)) for s, h in hashes) + " |}")
 
     def coq_obs(self, obs):
         cm = {"lt": "Some CLt", "nlt": "Some CNlt", "raise": "Some CRaise"}
@@ -441,6 +468,10 @@ class Laws(Suite):
                 + "; o_hash := " + clist(f"Some {cZ(h)}" for h in obs["hash"])
                 + "; o_lt := " + clist(clist(cm[x] for x in r) for r in obs["lt"])
                 + "; o_ne := " + clist(clist(cbool(x) for x in r) for r in obs["ne"])
+                + "; o_gt := " + clist(clist(cm[x] for x in r) for r in obs["gt"])
+                + "; o_le := " + clist(clist(cm[x] for x in r) for r in obs["le"])
+                + "; o_ge := " + clist(clist(cm[x] for x in r) for r in obs["ge"])
+                + "; o_sorted := Some " + copt(obs.get("sorted"), lambda p: clist(cnat(i) for i in p))
                 + "; o_flags := " + clist("Some " + cbool(x) for x in obs["flags"]) + " |}")
 
     def nontrivial(self, case, obs):
@@ -472,6 +503,11 @@ class Laws(Suite):
             for b in range(a, len(blocks)):
                 terms = blocks[a] + ([] if a == b else blocks[b])
                 yield self.make_case(terms)
+
+
+def _nan(t):
+    v = getattr(t, "value", None)
+    return (isinstance(v, float) and v != v) or (isinstance(v, Decimal) and v.is_nan())
 
 
 class _K:
@@ -790,7 +826,6 @@ ASSUMPTIONS = [
     "the lexical form Literal(lex, datatype=dt) builds for a recognised datatype other than the [+-]?[0-9]+ forms of xsd:integer "
     "is supplied as an oracle (normalisation is the subject of C09); the model decides only where it is used; 'the same term' for "
     "text read back by from_n3 / Turtle is the literal that default constructor builds (the term itself unless built with normalize=False)",
-    "laws: whether rdflib holds a literal to be ill-typed is supplied as an oracle used only by the trigger of finding F7k",
     "rdflib.DAWG_LITERAL_COLLATION is False and rdflib.NORMALIZE_LITERALS is True (defaults; reflected into Gen/Tables_term.v)",
     "ordering of two literals is modelled for plain/xsd:string/language-tagged and [+-]?[0-9]+ xsd:integer literals; for all other "
     "pairs of literals only 'the comparison does not raise' is checked",
